@@ -569,9 +569,9 @@ def _keeps_shallow(h, j):
     return False
 
 
-def r7_result_tested(ck, P):
+def r7_result_tested(ck, P, rid='C15-R7', only_units=None, floor=40):
     """T-ERR: no allocation failure is swallowed at the call site"""
-    R = ck.rule('C15-R7', 'the pointer result of every allocation, and of every function that passes an allocation failure on as NULL, is compared with NULL, returned to the caller, or stored into a location whose value is compared with NULL in the same function: a failure is never silently carried on', floor=40)
+    R = ck.rule(rid, 'the pointer result of every allocation, and of every function that passes an allocation failure on as NULL, is compared with NULL, returned to the caller, or stored into a location whose value is compared with NULL in the same function: a failure is never silently carried on' + (' (functions of %s)' % ', '.join(sorted(only_units)) if only_units else ''), floor=floor)
     MRN = set(may_return_null(P))
     F = fallible(P)
     # pointer-returning functions that answer NULL when a fallible status callee failed (bitmap_addrect)
@@ -584,7 +584,7 @@ def r7_result_tested(ck, P):
                     MRN.add(g)
     scope = api_scope(P)
     for f in P.functions():
-        if f not in scope:
+        if f not in scope or (only_units and f.unit.name not in only_units):
             continue
         tested_paths = set()
         for x in f.insts():
@@ -635,9 +635,9 @@ def r7_result_tested(ck, P):
                 ck.violation(R, f.name, 'unchecked result of %s' % c.callee, '%s never compares the result of %s with NULL (nor returns it): when the allocation fails the function carries on and the failure is lost or later overwritten' % (f.name, c.callee), c.loc())
 
 
-def r9_failure_is_atomic(ck, P):
+def r9_failure_is_atomic(ck, P, rid='C15-R9'):
     """T-ORD: a setter that reports an allocation failure has not touched the object yet"""
-    R = ck.rule('C15-R9', 'in every exported setter of an image, no field of the image is stored on a path that leads to the fallible allocation whose failure makes the call return FALSE: a refused call leaves the image exactly as it was (filter kind and parameter block, transform, ... stay consistent)', floor=1)
+    R = ck.rule(rid, 'in every exported setter of an image, no field of the image is stored on a path that leads to the fallible allocation whose failure makes the call return FALSE: a refused call leaves the image exactly as it was (filter kind and parameter block, transform, ... stay consistent)', floor=1)
     MRN = may_return_null(P)
     n = 0
     for f in common.public_api(P):
